@@ -155,7 +155,12 @@ partial def parseSchema (j : Json) : Except String Schema := do
       | "subset" => pure Policy.subset | "duck" => pure Policy.duck
       | p => throw s!"bad policy {p}"
     return .dict pol (fs.map (·.1)) (fs.map (·.2))
-  | "date" => return .date
+  | "date" =>
+    match j.getObjVal? "members" with
+    | .ok mj => match (← arr mj) with
+                | [a, b, c] => return .date (← parseKind a) (← parseKind b) (← parseKind c)
+                | _ => throw "bad date members"
+    | .error _ => return .date (.integer true 4) (.integer true 2) (.integer true 2)
   | "joined" =>
     let sp ← match (fldD j "splitter" (Json.str "static")) with
       | .str "static" => pure Splitter.static
